@@ -371,7 +371,7 @@ def cache_body(ctx):
 
 
 def run_cache(ctx):
-    hyp_run(ctx, 'c12.cache', CACHE_CASE, cache_body(ctx), ctx.pick(150, 2500))
+    hyp_run(ctx, 'c12.cache', CACHE_CASE, cache_body(ctx), ctx.pick(150, 20000))
 
 
 def run_cache_enumerated(ctx):
